@@ -835,12 +835,17 @@ func longUniverse(rnd *rand.Rand, variant int) []string {
 		for i := 0; i < n; i++ {
 			c := byte('b' + 3*i)
 			ln := 4060 + rnd.Intn(37)
-			switch rnd.Intn(3) {
+			switch rnd.Intn(4) {
 			case 0: // nothing shared with the neighbours
 				add(string(c) + pad(ln-1, c+1))
 			case 1: // two that share all but the end
 				add(pad(ln-2, c) + "a")
 				add(pad(ln-2, c) + "b")
+			case 3: // a run that shares all but the end: adjacent separators of about ln bytes
+				q := pad(4088+rnd.Intn(5), c)
+				for _, t := range []string{"", "a", "ab", "abc", "b", "c"}[:3+rnd.Intn(4)] {
+					add(q + t)
+				}
 			case 2: // two that share 100..300 bytes
 				q := pad(100+rnd.Intn(200), c)
 				add(q + pad(ln-len(q), 'm'))
